@@ -113,14 +113,21 @@ pub struct EwEnv {
     /// the applications read the events of a step() only after their next call of step() (the iterator is kept across the call, which its
     /// signature and documentation allow); events are then recorded one round late
     pub late_events: bool,
+    /// one endpoint's application stops calling step() for a while (1 = the server, 2 = client 0; length in rounds): one costly choice of
+    /// which stall, its first round a free choice over the deviation window
+    pub stalls: &'static [(u8, usize)],
+    /// the server application keeps a clone of the handle `Server::client()` returns for every connection it is told of, until the run ends
+    pub keep_handles: bool,
+    /// a stranger sends this many unparsable datagrams to the server in every round
+    pub junk_per_round: usize,
 }
 
 impl EwEnv {
     pub fn name(&self) -> String {
-        format!("f{}{}t{:?}d{:?}fd{}ls{}.{}dev{}+{}max{}app{}{}bl{}", self.fates.len(), if self.fates_free { "free" } else { "" }, self.fate_types, self.deltas, self.fair_delta, self.lose_syn, self.lose_synack, self.dev_start, self.dev_rounds, self.max_rounds, self.app_menu.len(), if self.skip_choice { "S" } else { "" }, self.blackouts.len()) + &(if self.blackout_lens.is_empty() { String::new() } else { format!("x{:?}", self.blackout_lens) }) + if self.late_events { "late" } else { "" }
+        format!("f{}{}t{:?}d{:?}fd{}ls{}.{}dev{}+{}max{}app{}{}bl{}", self.fates.len(), if self.fates_free { "free" } else { "" }, self.fate_types, self.deltas, self.fair_delta, self.lose_syn, self.lose_synack, self.dev_start, self.dev_rounds, self.max_rounds, self.app_menu.len(), if self.skip_choice { "S" } else { "" }, self.blackouts.len()) + &(if self.blackout_lens.is_empty() { String::new() } else { format!("x{:?}", self.blackout_lens) }) + if self.late_events { "late" } else { "" } + &(if self.stalls.is_empty() { String::new() } else { format!("stall{:?}", self.stalls) }) + if self.keep_handles { "handles" } else { "" } + &(if self.junk_per_round > 0 { format!("junk{}", self.junk_per_round) } else { String::new() })
     }
     pub fn basic(dev_rounds: usize, max_rounds: usize) -> Self {
-        Self { fates: DF_BASIC, fate_types: &[], fates_free: false, deltas: &[100, 0, 1000, 2000], dev_start: 0, dev_rounds, max_rounds, app_menu: vec![], skip_choice: false, fair_delta: 100, blackouts: &[], blackout_lens: &[], stop_when_done: true, fuel: 2_000_000, long_hold: 12, lose_syn: 0, lose_synack: 0, late_events: false }
+        Self { fates: DF_BASIC, fate_types: &[], fates_free: false, deltas: &[100, 0, 1000, 2000], dev_start: 0, dev_rounds, max_rounds, app_menu: vec![], skip_choice: false, fair_delta: 100, blackouts: &[], blackout_lens: &[], stop_when_done: true, fuel: 2_000_000, long_hold: 12, lose_syn: 0, lose_synack: 0, late_events: false, stalls: &[], keep_handles: false, junk_per_round: 0 }
     }
 }
 
@@ -203,6 +210,12 @@ pub fn run_ew(cfg: &EwCfg, script: &[EwOp], env: &EwEnv, ch: &mut Chooser) -> Ew
         if blackout.is_some() && !env.blackout_lens.is_empty() { blackout_end = blackout.unwrap().0 + env.blackout_lens[ch.free(env.blackout_lens.len())]; }
     }
     tr.blackout = blackout;
+    let mut stall: Option<(usize, u8, usize)> = None;
+    if !env.stalls.is_empty() {
+        let k = ch.choose(env.stalls.len() + 1);
+        if k > 0 { let (who, len) = env.stalls[k - 1]; stall = Some((env.dev_start + ch.free(env.dev_rounds.max(1)), who, len)); }
+    }
+    let mut kept_handles: Vec<std::rc::Rc<std::cell::RefCell<server::RemoteClient>>> = Vec::new();
     let mut quiet = 0; let mut lost_syn = 0usize; let mut lost_synack = 0usize;
     for round in 0..env.max_rounds {
         let dev = round >= env.dev_start && round < env.dev_start + env.dev_rounds;
@@ -312,12 +325,15 @@ pub fn run_ew(cfg: &EwCfg, script: &[EwOp], env: &EwEnv, ch: &mut Chooser) -> Ew
         for h in held.drain(..) { if h.due <= round { due.push(h) } else { rest.push(h) } }
         held = rest;
         due.sort_by_key(|h| (h.due, h.seq));
+        // a stranger's unparsable datagrams arrive ahead of everything else delivered in this round
+        for j in 0..env.junk_per_round { vnet::deliver(raddr(9), saddr(), vec![0xEE, j as u8, round as u8, 0x55, 0xAA]); }
         for h in due {
             let d = &tr.wire[h.dg];
             if vnet::deliver(d.src, d.dst, d.bytes.clone()) { tr.delivered.push(Delivered { round, t_ms: now, dg: h.dg }); }
         }
         // --- endpoints step
-        let skip = if dev && env.skip_choice { ch.choose(3) } else { 0 };
+        let mut skip = if dev && env.skip_choice { ch.choose(3) } else { 0 };
+        if let Some((r0, who, len)) = stall { if round >= r0 && round < r0 + len { skip = who as usize; } }
         if skip != 0 { tr.last_dev_round = round; }
         let mut ob = EwObs { round, t_ms: now, ..Default::default() };
         ob.s_stepped = skip != 1;
@@ -333,6 +349,7 @@ pub fn run_ew(cfg: &EwCfg, script: &[EwOp], env: &EwEnv, ch: &mut Chooser) -> Ew
                 };
                 let ci = client_index(&addr).filter(|c| *c < n).unwrap_or(n);
                 if ev == Ev::Connect && ci < n { tr.s_connect_round[ci] = Some(round); }
+                if ev == Ev::Connect && env.keep_handles { if let Some(rc) = srv.client(&addr) { kept_handles.push(std::rc::Rc::clone(rc)); } }
                 if ev == Ev::Connect && cfg.greet > 0 && ci >= n { if let Some(rc) = srv.client(&addr) { rc.borrow_mut().send(vec![0x47u8; cfg.greet].into_boxed_slice(), 0, SendMode::Reliable); } }
                 let gen = if ci < n { tr.gens[ci] } else { 0 };
                 tr.sev[ci].push(EvRec { round, t_ms: now, ev, gen });
